@@ -438,6 +438,15 @@ func runC03(c *Ctx) {
 					touches = true
 				}
 			}
+			// registering the waker is an event to account for (its discount may have gone missing)
+			if isCallTo(in, setReadIface, setReadM) && wakerF != nil {
+				args := in.(ssa.CallInstruction).Common().Args
+				eachInstr(fn, func(x ssa.Instruction) {
+					if v, ok := x.(ssa.Value); ok && loadedField(v) == wakerF && dependsOnLoose(args[len(args)-1], v) {
+						touches = true
+					}
+				})
+			}
 			if call, ok := in.(ssa.CallInstruction); ok {
 				if _, ok := summaries[call.Common().StaticCallee()]; ok && call.Common().StaticCallee() != nil {
 					touches = true
